@@ -277,6 +277,11 @@ func M1_outcome() {
 		{"stray_hash_start", "# " + good, 1, "nil", "nil"},
 		{"stray_dollar_mid", strings.Replace(good, "salience 7", "salience $ 7", 1), 1, "nil", "nil"},
 		{"stray_backtick_last", good + " `", 1, "nil", "nil"},
+		// lexable leftovers behind the last rule end the parse (the grammar's start rule does not ask for EOF):
+		// whatever follows them is never lexed, by any entry point
+		{"leftover_then_dollar", good + " leftover $", -1, fullW, incrW},
+		{"leftover_number_then_tilde", good + " 12 ~ x", -1, fullW, incrW},
+		{"leftover_brace_then_unclosed_string", good + " } \"open", -1, fullW, incrW},
 		{"salience_not_int", strings.Replace(good, "salience 7", "salience 99999999999999999999", 1), 1, "nil", "nil"},
 		{"unclosed_string", strings.Replace(good, "\"nb\"", "\"nb", 1), -1, "nil", "nil"},
 	}
